@@ -40,7 +40,7 @@ func genC13(t *rapid.T) c13Case {
 	}
 	c.A, c.AC, c.B, c.BC = hx(a), ac, hx(b), bc
 	c.Sess, c.SessC = genSession(t)
-	c.Alter = rapid.SampledFrom([]string{"", "", "", "", "cA+1", "cA-rand", "cA-add", "cA-mult2", "cB+1", "cB-rand", "cB-add", "cB-mult2", "wrong-B", "swap-c"}).Draw(t, "alter")
+	c.Alter = rapid.SampledFrom([]string{"", "", "", "", "cA+1", "cA-rand", "cA-add", "cA-mult2", "cB+1", "cB-rand", "cB-add", "cB-mult2", "wrong-B", "wrong-B-adaptive", "swap-c"}).Draw(t, "alter")
 	c.Delta = hx(add(drawBigBits(t, "delta", 200), 1))
 	return c
 }
@@ -82,6 +82,55 @@ func runC13(c c13Case) ev.Outcome {
 			return r
 		}
 		return ct
+	}
+	if c.Alter == "wrong-B-adaptive" {
+		// a cheating Bob: multiplier b goes into the ciphertext, but he claims the point B' = (b+1)*G. He runs
+		// the prover for B' with a mask he chose, recovers the challenge from his own response and picks U
+		// afterwards so that the point equation holds for B'. Alice must reject (the challenge binds U).
+		if !c.WC || b.Sign() == 0 {
+			out.Skip = true
+			return out
+		}
+		wrong := new(big.Int).Mod(add(b, 1), q)
+		if wrong.Sign() == 0 {
+			wrong = big.NewInt(5)
+		}
+		Bbad := crypto.ScalarBaseMult(cv.EC, wrong)
+		y := randBelow(pow(q, 5))
+		cY, r, _ := pkA.EncryptAndReturnRandomness(rand.Reader, y)
+		cB, _ := pkA.HomoMult(b, cA)
+		cB, _ = pkA.HomoAdd(cB, cY)
+		q3 := pow(q, 3)
+		alpha := add(new(big.Int).Rsh(q3, 3), 77)
+		rd := &prefixReader{prefix: alpha.FillBytes(make([]byte, (q3.BitLen()+7)/8)), rest: rand.Reader}
+		pf, err := mta.ProveBobWC(sess, cv.EC, pkA, ap.NTildei, ap.H1i, ap.H2i, cA, cB, b, y, r, Bbad, rd)
+		if err != nil {
+			out.Skip = true
+			return out
+		}
+		xx := new(big.Int).Sub(pf.S1, alpha)
+		if xx.Sign() < 0 || new(big.Int).Mod(xx, b).Sign() != 0 {
+			out.Label += " (mask not steerable)"
+			out.Nontrivial = false
+			return out
+		}
+		e := new(big.Int).Div(xx, b)
+		s1 := new(big.Int).Mod(pf.S1, q)
+		em := new(big.Int).Mod(new(big.Int).Neg(e), q)
+		if e.Cmp(q) >= 0 || s1.Sign() == 0 || em.Sign() == 0 {
+			out.Skip = true
+			return out
+		}
+		U2, err := crypto.ScalarBaseMult(cv.EC, s1).Add(Bbad.ScalarMult(em))
+		if err != nil {
+			out.Skip = true
+			return out
+		}
+		forged := &mta.ProofBobWC{ProofBob: pf.ProofBob, U: U2}
+		if v, err := mta.AliceEndWC(sess, cv.EC, pkA, forged, Bbad, cA, cB, ap.NTildei, ap.H1i, ap.H2i, ap.PaillierSK); err == nil || v != nil {
+			return fail("wrong-point-accepted", "Alice accepted a response whose public point is not b*G (U chosen after the challenge)")
+		}
+		return out
 	}
 	cAforBob := cA
 	if len(c.Alter) > 2 && c.Alter[:2] == "cA" {
